@@ -254,9 +254,14 @@ class CmpInterp(object):
         if f is not None:
             return f
         if isinstance(e, ast.Call) and call_name(e) in ("_rpm_vercmp", "rpm_vercmp._rpm_vercmp") and len(e.args) == 2:
-            a, b = self.ev(e.args[0], env), self.ev(e.args[1], env)
+            try:
+                a, b = self.ev(e.args[0], env), self.ev(e.args[1], env)
+            except Unknown as u_:
+                if "MISMATCH" in str(u_):
+                    raise
+                a = b = None
             if not (isinstance(a, tuple) and isinstance(b, tuple)):
-                raise Unknown("arguments of _rpm_vercmp")
+                raise Unknown("MISMATCH: _rpm_vercmp is not applied to one field of each package (%s vs %s): version and release must be compared separately, in that order" % (short(e.args[0], 40), short(e.args[1], 40)))
             if a[1] != b[1]:
                 raise Unknown("MISMATCH: _rpm_vercmp compares %s of one package with %s of the other" % (a[1], b[1]))
             if a[1] not in self.sig:
